@@ -40,7 +40,7 @@ def weights_gate(ctx, idx, rule, d, r):
     good = None
     for t in tests:
         c = t.ast
-        sides = [c.left] + list(c.comparators)
+        sides = [K.expand(fi, x) for x in [c.left] + list(c.comparators)]
         lens = [s for s in sides if isinstance(s, ast.Call) and isinstance(s.func, ast.Name) and s.func.id == "len"]
         if len(lens) == 2 and len(c.ops) == 1 and isinstance(c.ops[0], (ast.NotEq, ast.Eq)):
             lab = "true" if isinstance(c.ops[0], ast.NotEq) else "false"
